@@ -998,13 +998,25 @@ def pairRows (p : Plan) (pr : List TRow × SinkKey) : List Row := (rowsOf p pr.1
 def entryOf (p : Plan) (pr : List TRow × SinkKey) : Key × List St :=
   (pr.2.key, p.metrics.map fun m => snapshot (fstate m (pairRows p pr)))
 
-theorem partials_eq (p : Plan) (zl : Bool) (flows : List (List TRow)) (h : ∀ fl ∈ flows, NoSplit p fl) :
-    (flows.map fun fl => intoPartial zl (sinkAgg p fl)).flatten = (pairsOf p flows).map (entryOf p) := by
+theorem map_zipIdx_const {α β : Type} (l : List α) (F : α → Nat → β) (G : α → β)
+    (h : ∀ a ∈ l, ∀ i, F a i = G a) : ∀ n, (l.zipIdx n).map (fun x => F x.1 x.2) = l.map G := by
+  induction l with
+  | nil => intro n; rfl
+  | cons a l ih =>
+    intro n
+    simp only [List.zipIdx_cons, List.map_cons]
+    rw [h a (by simp), ih (fun b hb => h b (by simp [hb]))]
+
+theorem partials_eq (p : Plan) (zl : Nat → Bool) (flows : List (List TRow)) (h : ∀ fl ∈ flows, NoSplit p fl) :
+    (flows.zipIdx.map fun x => intoPartial (zl x.2) (sinkAgg p x.1)).flatten =
+      (pairsOf p flows).map (entryOf p) := by
+  rw [map_zipIdx_const flows (fun fl i => intoPartial (zl i) (sinkAgg p fl))
+    (fun fl => (sinkAgg p fl).map fun e => (e.1.key, e.2.map snapshot))
+    (fun fl hfl i => intoPartial_noSplit p (zl i) fl (h fl hfl)) 0]
   rw [pairsOf, List.map_flatMap, List.flatMap_def]
   congr 1
   apply List.map_congr_left
   intro fl hfl
-  rw [intoPartial_noSplit p zl fl (h fl hfl)]
   simp only [AList.keys, List.map_map]
   apply List.map_congr_left
   intro e he
@@ -1014,7 +1026,7 @@ theorem partials_eq (p : Plan) (zl : Bool) (flows : List (List TRow)) (h : ∀ f
   rw [hs, List.map_map]
   rfl
 
-theorem runFlows_get (p : Plan) (zl : Bool) (flows : List (List TRow)) (h : ∀ fl ∈ flows, NoSplit p fl)
+theorem runFlows_get (p : Plan) (zl : Nat → Bool) (flows : List (List TRow)) (h : ∀ fl ∈ flows, NoSplit p fl)
     (fk : Key) :
     (runFlows p zl flows).get fk =
       chain (fun pr => mstep (entryOf p pr)) none
@@ -1175,7 +1187,7 @@ theorem pairs_rows_perm (p : Plan) (fk : Key) (flows : List (List TRow)) :
 /-- **Main table-level result.** For flows that each take one path through the sink and whose
 MIN/MAX cells are never blank, the coordinator's entry for a final key is present exactly when
 some row has that key, and its reported cells are the reference folds over those rows. -/
-theorem runFlows_spec (p : Plan) (zl : Bool) (flows : List (List TRow))
+theorem runFlows_spec (p : Plan) (zl : Nat → Bool) (flows : List (List TRow))
     (hns : ∀ fl ∈ flows, NoSplit p fl) (hg : ∀ fl ∈ flows, GoodFlow p fl) (fk : Key) :
     match (runFlows p zl flows).get fk with
     | none => ((flows.flatten.map (·.2)).filter fun r => finalKey p r = fk) = []
@@ -1222,7 +1234,7 @@ def allRows (flows : List (List TRow)) : List Row := flows.flatten.map (·.2)
 def groupRows (p : Plan) (flows : List (List TRow)) (fk : Key) : List Row :=
   (allRows flows).filter fun r => finalKey p r = fk
 
-theorem reportAt_spec (p : Plan) (zl : Bool) (flows : List (List TRow))
+theorem reportAt_spec (p : Plan) (zl : Nat → Bool) (flows : List (List TRow))
     (hns : ∀ fl ∈ flows, NoSplit p fl) (hg : ∀ fl ∈ flows, GoodFlow p fl) (fk : Key) :
     reportAt p (runFlows p zl flows) fk =
       if retained p fk && !(groupRows p flows fk).isEmpty then
